@@ -31,6 +31,8 @@ CORPUS = [
     [(0, 0), (20, 0), (16, 5), (0, 0)], [(7, 2), (20, 0), (7, 0)],
     [(13, 1), (16, 5), (13, 1)], [(13, 2), (16, 5), (13, 2)], [(13, 1), (17, 1), (13, 1)],      # exports after mutators
     [(13, 4), (13, 3)], [(13, 1), (13, 3)], [(13, 3), (13, 4), (13, 3)], [(13, 4), (20, 0), (13, 3)],   # default export after an export to another format
+    [(13, 5), (3, 0)], [(13, 5), (12, 1)], [(3, 0), (13, 5), (11, 0)],            # basins(idxs=view of idxs_seq, streams=...) then the order / accumulation
+    [(0, 0), (21, 3)], [(4, 0), (21, 3)], [(20, 0), (21, 3)], [(21, 3), (0, 0), (21, 3)],   # stream distance in cells after rank-computing queries
     [(8, 0), (7, 0)], [(7, 0), (8, 0)], [(8, 0), (7, 0), (8, 0)],                                # classic vs Strahler memo
     [(11, 1), (11, 1)], [(11, 1), (10, 0)], [(11, 1), (11, 0), (11, 1)],                         # repeated unit conversions
     [(21, 1), (21, 0)], [(21, 1), (9, 0)], [(9, 0), (21, 2), (21, 0)], [(21, 0), (18, 1), (21, 0)], [(21, 2), (18, 0), (9, 0)],   # stream distance vs distnc memo
@@ -47,7 +49,7 @@ def corpus():
             if not raster and any(c in (9, 10, 13, 18, 21) or (c == 11 and a) for c, a in ops):
                 continue
             for cache in (1, 0):
-                net = dsl if any(c == 17 for c, _ in ops) else ds
+                net = dsl if any(c == 17 or (c, a) == (21, 3) for c, a in ops) else ds   # a network with a loop
                 ops2 = [(c, (1 if c == 17 else a)) for c, a in ops]
                 for hasarea in ((0, 1) if not raster else (0,)):
                     out.append({"k": 1201, "args": [[raster, cache, hasarea], [x for p in ops2 for x in p]],
@@ -78,9 +80,9 @@ def cases(tier, rng):
             elif c == 11:
                 a = rng.randrange(2) if raster else 0
             elif c == 13:
-                a = rng.randrange(5) if raster else 0
+                a = rng.randrange(6) if raster else 0
             elif c == 21:
-                a = rng.choice([0, 0, 1, 2])
+                a = rng.choice([0, 0, 1, 2, 3, 3])       # 3: unit='cell' without a mask
             elif c == 19:
                 a = rng.randrange(2)
             elif c == 18:
@@ -185,6 +187,10 @@ def impl(case):
         if c == 12:
             return np.asarray(o.accuflux(R(_arr("data", arg, n)))).ravel().tolist()
         if c == 13:
+            if raster and arg == 5:
+                # outlets handed over as a VIEW of the object's own cell order, moved onto a stream mask first: a query
+                # must not write through its arguments into the object (round-5 seed)
+                return np.asarray(o.basins(idxs=o.idxs_seq[-3:], streams=R(_arr("mask", 1, n)))).ravel().tolist()
             if raster and arg:
                 # exports must describe the CURRENT network (nextxy always succeeds; d8 may raise on far links)
                 # arg 3: the default export (the object's own format) must not depend on earlier exports (round-5 seed)
@@ -192,6 +198,8 @@ def impl(case):
                 return [np.asarray(x).ravel().tolist() for x in (v if arg == 1 else [v])]
             return np.asarray(o.basins()).ravel().tolist() if raster else sorted(int(x) for x in o.idxs_pit)
         if c == 21:
+            if arg == 3:      # counted in cells: -9999 (not the rank's -1) on cells that reach no pit, whatever ran before
+                return np.asarray(o.stream_distance(unit="cell")).ravel().tolist()
             return np.asarray(o.stream_distance(mask=None if arg == 0 else R(_arr("mask", arg, n)), unit="m")).ravel().tolist()
         if c in (14, 15):
             start = np.array([n - 1])
